@@ -25,7 +25,7 @@ def setup(stub_buffers=True):
 
     import pulser.sequence.helpers._seq_str as ss
 
-    facade.install(extra_np=(wm, tr, co), extra_float=(ss,))
+    facade.install(extra_np=(wm, tr, co), extra_float=(ss, wm))
     stubs.init()
     if stub_buffers:
         stubs.install_buffer_stub()
